@@ -215,6 +215,61 @@ def run_concurrent():
     return problems
 
 
+def sibling_tasks():
+    """Several tasks spawned into ONE scope's group, from different scope levels: a record lands in the innermost scope active
+    in the recording task - not in a scope a sibling happens to sit in, and in the scope that was current where the task
+    was spawned (second spawn from inside a nested synchronous scope)."""
+    problems = []
+
+    async def prog():
+        done = {}
+
+        def completion(tag):
+            def cb(metrics):
+                done[tag] = (metrics.read(M1), metrics.read(M2))
+            return cb
+        sitting, release = asyncio.Event(), asyncio.Event()
+
+        async def first():
+            with ctx.scope("first-private", completion=completion("first-private")):
+                ctx.record(M1(v=1), merge=m_sum)
+                sitting.set()
+                await release.wait()
+                ctx.record(M1(v=2), merge=m_sum)
+
+        async def second():
+            await sitting.wait()
+            ctx.record(M2(items=(21,)), merge=m_sum)      # while `first` sits in its private scope
+            release.set()
+
+        async def from_inner():
+            ctx.record(M2(items=(31,)), merge=m_sum)
+
+        async def from_root_again():
+            ctx.record(M2(items=(22,)), merge=m_sum)
+        async with ctx.scope("root", completion=completion("root")):
+            ctx.spawn(first)
+            ctx.spawn(second)
+            with ctx.scope("inner", completion=completion("inner")):
+                ctx.spawn(from_inner)
+                for _ in range(3):          # the task records while the synchronous scope it was spawned in is still open
+                    await asyncio.sleep(0)
+            await sitting.wait()
+            ctx.spawn(from_root_again)
+        for _ in range(6):
+            await asyncio.sleep(0)
+        want = {"root": (None, M2(items=(21, 22))), "inner": (None, M2(items=(31,))),
+                "first-private": (M1(v=3), None)}
+        for tag, w in want.items():
+            if tag not in done:
+                problems.append(f"sibling tasks: scope {tag!r} never completed")
+            elif done[tag] != w:
+                problems.append(f"sibling tasks of one group: scope {tag!r} holds {done[tag]}, expected {w} (each record belongs to the "
+                                "innermost scope of the task that made it / the scope where that task was spawned)")
+    asyncio.run(asyncio.wait_for(prog(), 5))
+    return problems
+
+
 def several_views():
     """The merged view is the fold with the merge function *supplied to that call*: several views of one scope - live and
     completed - taken one after another with different, freshly made functions (inline lambdas, whose addresses CPython reuses)."""
@@ -340,7 +395,7 @@ def main():
         p = pc[0] if pc else None
     if not p:
         n += 1
-        pv = several_views() or late_records()
+        pv = several_views() or late_records() or sibling_tasks()
         p = pv[0] if pv else None
     if p:
         print(json.dumps(dict(reproduced=True, detail=dict(problem=p, seed=seed, program=n), cases_tried=n), default=str))
